@@ -658,6 +658,28 @@ func c15CheckCBOR(s shape, fresh func() any, plainComparable bool) string {
 			}
 		}
 	}
+	// ... also a key the struct has NO field for (a label from a newer
+	// revision, a vendor's): once it is ignored, twice it is a duplicate key
+	{
+		unk := int64(8765432)
+		for _, pr := range n.Pairs {
+			if k, ok := pr[0].Int(); ok && k == unk {
+				unk++
+			}
+		}
+		once := append(append([][2]*icbor.Node{}, n.Pairs...), icbor.P(icbor.I(unk), icbor.U(1)))
+		if err := encoding.PopulateStructFromCBOR(hdm, icbor.Encode(icbor.Map(once...)), fresh()); err == nil {
+			for name, second := range map[string]*icbor.Node{"same value": icbor.U(1), "another value": icbor.Tstr("x")} {
+				twice := append(append([][2]*icbor.Node{}, once...), icbor.P(icbor.I(unk), second))
+				spread := append(append([][2]*icbor.Node{icbor.P(icbor.I(unk), second)}, n.Pairs...), icbor.P(icbor.I(unk), icbor.U(1)))
+				for form, f := range map[string]*icbor.Node{"definite": icbor.Map(twice...), "first and last": icbor.Map(spread...), "indefinite": icbor.Map(twice...).WithIndef()} {
+					if err := encoding.PopulateStructFromCBOR(hdm, icbor.Encode(f), fresh()); err == nil {
+						return fmt.Sprintf("populate succeeds on CBOR input (%s map) in which the key %d, which the struct has no field for, occurs twice (%s)", form, unk, name)
+					}
+				}
+			}
+		}
+	}
 	// the same entries as an indefinite-length or tag-wrapped map: if the
 	// helper accepts that form at all, the value must be the same
 	for name, f := range map[string]*icbor.Node{"indefinite": icbor.Map(n.Pairs...).WithIndef(), "tagged": icbor.Tag(55799, icbor.Map(n.Pairs...))} {
@@ -762,7 +784,7 @@ func c15CheckJSON(s shape, fresh func() any, plainComparable bool) string {
 }
 
 func TestC15_Shapes(t *testing.T) {
-	st := NewStats("C15", "TestC15_Shapes", "rapid: nineteen hand-declared struct shapes following the claims convention (flat; one- and two-level embedded struct; embedded interface holding a struct pointer, a struct by value, or nil; empty struct; all-optional struct; a struct whose JSON member names differ only by (Unicode) case; an embedded struct of an unexported type; tag options with omitempty before keyasint; a named field called like its struct type; cbor and json tags that disagree about '-' and omitempty; an integer-kind field type with a text form; keys spelled with leading zeros / a sign; tagged embedded fields of defined NON-struct types; a claim whose value is a plain struct with keyasint, text-keyed and untagged members; open-typed claims (any / map / slice of any) holding numbers and nested containers) x random field values x random subsets of optional fields set. CBOR: output parsed by the independent reader must be ONE definite map whose entries equal, in declaration order, the hand-written union of outer+embedded fields honouring omitempty and '-'; populate(serialise(x)) == x; for shapes without embedding the decoded map equals the plain marshaller's; bytes stable; deleting any non-optional key or duplicating a key makes populate fail. JSON likewise (no duplicate clause; a differently-cased spelling of a missing non-optional member does not stand in for it). Non-trivial = has an embedded level, or is the empty/all-absent struct; distinct = shape + presence mask")
+	st := NewStats("C15", "TestC15_Shapes", "rapid: nineteen hand-declared struct shapes following the claims convention (flat; one- and two-level embedded struct; embedded interface holding a struct pointer, a struct by value, or nil; empty struct; all-optional struct; a struct whose JSON member names differ only by (Unicode) case; an embedded struct of an unexported type; tag options with omitempty before keyasint; a named field called like its struct type; cbor and json tags that disagree about '-' and omitempty; an integer-kind field type with a text form; keys spelled with leading zeros / a sign; tagged embedded fields of defined NON-struct types; a claim whose value is a plain struct with keyasint, text-keyed and untagged members; open-typed claims (any / map / slice of any) holding numbers and nested containers) x random field values x random subsets of optional fields set. CBOR: output parsed by the independent reader must be ONE definite map whose entries equal, in declaration order, the hand-written union of outer+embedded fields honouring omitempty and '-'; populate(serialise(x)) == x; for shapes without embedding the decoded map equals the plain marshaller's; bytes stable; deleting any non-optional key or duplicating a key (one of the struct's, or one the struct has no field for) makes populate fail. JSON likewise (no duplicate clause; a differently-cased spelling of a missing non-optional member does not stand in for it). Non-trivial = has an embedded level, or is the empty/all-absent struct; distinct = shape + presence mask")
 	st.Require = []string{"flat", "embedded-1", "embedded-2", "embedded-iface", "embedded-iface-nil", "embedded-iface-value", "case-fold-names", "embedded-unexported-type", "tag-option-order", "field-named-as-type", "tags-disagree", "text-marshaler-enum", "key-spelling", "embedded-scalar-types", "struct-valued-claim", "open-typed-claims", "empty", "all-optional", "zero-entries"}
 	defer st.Flush(t)
 	rapid.Check(t, func(t *rapid.T) {
